@@ -8,51 +8,94 @@ From MptV Require Import C14.NodeModel C14.NodeSpec C14.NodeRep C14.NodeFocus C1
 Import ListNotations.
 Local Open Scope nat_scope.
 
-(* ---------------------------------------------------------------- renumbering *)
-Lemma renum_t_eq i n v k c :
-  renum_t (T i n v k) c = let '(k', c') := renum_l k (S c) in (T c n v k', c').
+(* ---------------------------------------------------------------- the specification's clone *)
+Lemma sclone_t_eq i n v k c kk :
+  sclone_t (T i n v k) c kk =
+  if unclonable v then (None, c, kk)
+  else
+    let '(k1, f) := tick kk in
+    if f then (None, c, k1)
+    else
+      let '(k2, f2) := if name_alloc n then tick k1 else (k1, false) in
+      if f2 then (None, S c, k2)
+      else
+        let '(kids', c', k') := sclone_l k (S c) k2 in
+        match kids' with
+        | Some kk' => (Some (T c n v kk'), c', k')
+        | None => (None, c', k')
+        end.
 Proof.
-  cbn [renum_t].
-  match goal with |- (let '(_, _) := ?f k (S c) in _) = _ =>
-    enough (E : forall l d, f l d = renum_l l d) by (rewrite E; reflexivity) end.
-  induction l as [|t r IH]; intros d; [reflexivity|].
-  cbn [renum_l]. destruct (renum_t t d) as [t' c1]. rewrite IH. reflexivity.
+  cbn [sclone_t]. destruct (unclonable v); [reflexivity|].
+  destruct (tick kk) as [k1 f]. destruct f; [reflexivity|].
+  destruct (if name_alloc n then tick k1 else (k1, false)) as [k2 f2]. destruct f2; [reflexivity|].
+  match goal with |- context [?f k (S c) k2] =>
+    enough (E : forall l d e, f l d e = sclone_l l d e) by (rewrite E; reflexivity) end.
+  induction l as [|t r IH]; intros d e; [reflexivity|].
+  cbn [sclone_l]. destruct (sclone_t t d e) as [[[t'|] c1] k1']; [|reflexivity].
+  rewrite IH. reflexivity.
 Qed.
 
-Lemma renum_l_cons t r c :
-  renum_l (t :: r) c = let '(t', c1) := renum_t t c in let '(r', c2) := renum_l r c1 in (t' :: r', c2).
+Lemma sclone_l_cons t r c k :
+  sclone_l (t :: r) c k =
+  match sclone_t t c k with
+  | (Some t', c1, k1) =>
+    match sclone_l r c1 k1 with
+    | (Some r', c2, k2) => (Some (t' :: r'), c2, k2)
+    | (None, c2, k2) => (None, c2, k2)
+    end
+  | (None, c1, k1) => (None, c1, k1)
+  end.
 Proof. reflexivity. Qed.
-
-Lemma renum_l_spec : forall l c,
-  ids_f (fst (renum_l l c)) = seq c (fsize l) /\ snd (renum_l l c) = c + fsize l.
-Proof.
-  intros l. induction l as [l IH] using (well_founded_induction (well_founded_ltof _ fsize)).
-  unfold ltof in IH. intros c. destruct l as [|[i n v k] r]; [cbn; auto|].
-  rewrite renum_l_cons, renum_t_eq.
-  destruct (IH k) with (c := S c) as [K1 K2]; [rewrite fsize_cons, tsize_eq; lia|].
-  destruct (renum_l k (S c)) as [k' c1]. cbn [fst snd] in K1, K2. subst c1.
-  destruct (IH r) with (c := S c + fsize k) as [R1 R2]; [rewrite fsize_cons, tsize_eq; lia|].
-  destruct (renum_l r (S c + fsize k)) as [r' c2]. cbn [fst snd] in *. subst c2.
-  rewrite ids_f_cons, ids_t_eq, K1, R1, fsize_cons, tsize_eq. split; [|lia].
-  cbn [app]. replace (S (fsize k) + fsize r) with (S (fsize k + fsize r)) by lia.
-  cbn [seq]. f_equal. rewrite seq_app. f_equal.
-Qed.
 
 (* shape: the tree without node identities *)
 Inductive shape := Sh (n v : nat) (k : list shape).
 Fixpoint shape_t (t : tree) : shape := match t with T _ n v k => Sh n v (map shape_t k) end.
 Definition shape_l (l : forest) : list shape := map shape_t l.
 
-Lemma renum_shape : forall l c, shape_l (fst (renum_l l c)) = shape_l l.
+(* a clone that succeeds has the fresh ids in pre-order and the shape of its source;
+   one that fails has consumed at most as many ids *)
+Lemma sclone_l_spec : forall l c k,
+  match sclone_l l c k with
+  | (Some l', c', _) => ids_f l' = seq c (fsize l) /\ c' = c + fsize l /\ shape_l l' = shape_l l
+  | (None, c', _) => c <= c' <= c + fsize l
+  end.
 Proof.
   intros l. induction l as [l IH] using (well_founded_induction (well_founded_ltof _ fsize)).
-  unfold ltof in IH. intros c. destruct l as [|[i n v k] r]; [reflexivity|].
-  rewrite renum_l_cons, renum_t_eq.
-  pose proof (IH k) as Hk. specialize (Hk ltac:(rewrite fsize_cons, tsize_eq; lia) (S c)).
-  destruct (renum_l k (S c)) as [k' c1]. cbn [fst] in Hk.
-  pose proof (IH r) as Hr. specialize (Hr ltac:(rewrite fsize_cons, tsize_eq; lia) c1).
-  destruct (renum_l r c1) as [r' c2]. cbn [fst] in *.
-  unfold shape_l in *. cbn [map shape_t]. rewrite Hk, Hr. reflexivity.
+  unfold ltof in IH. intros c k. destruct l as [|[i n v kk] r]; [cbn; auto|].
+  rewrite sclone_l_cons, sclone_t_eq, fsize_cons, tsize_eq.
+  destruct (unclonable v); [lia|].
+  destruct (tick k) as [k1 f]. destruct f; [lia|].
+  destruct (if name_alloc n then tick k1 else (k1, false)) as [k2 f2]. destruct f2; [lia|].
+  pose proof (IH kk ltac:(rewrite fsize_cons, tsize_eq; lia) (S c) k2) as Hk.
+  destruct (sclone_l kk (S c) k2) as [[[kk'|] c1] k3]; [|lia].
+  destruct Hk as (K1 & K2 & K3). subst c1.
+  pose proof (IH r ltac:(rewrite fsize_cons, tsize_eq; lia) (S c + fsize kk) k3) as Hr.
+  destruct (sclone_l r (S c + fsize kk) k3) as [[[r'|] c2] k4]; [|lia].
+  destruct Hr as (R1 & R2 & R3). subst c2.
+  rewrite ids_f_cons, ids_t_eq, K1, R1. split; [|split; [lia|]].
+  - cbn [app]. replace (S (fsize kk) + fsize r) with (S (fsize kk + fsize r)) by lia.
+    cbn [seq]. f_equal. rewrite seq_app. f_equal.
+  - unfold shape_l in *. cbn [map shape_t]. rewrite K3, R3. reflexivity.
+Qed.
+
+(* no allocation failure, no unclonable value: the clone succeeds *)
+Fixpoint clonable_t (t : tree) : bool :=
+  match t with T _ _ v k => negb (unclonable v) && forallb clonable_t k end.
+
+Lemma tick_0 : tick 0 = (0, false).
+Proof. reflexivity. Qed.
+
+Lemma sclone_l_ok : forall l c, forallb clonable_t l = true -> exists l' c', sclone_l l c 0 = (Some l', c', 0).
+Proof.
+  intros l. induction l as [l IH] using (well_founded_induction (well_founded_ltof _ fsize)).
+  unfold ltof in IH. intros c H. destruct l as [|[i n v kk] r]; [cbn; eauto|].
+  cbn [forallb clonable_t] in H. apply andb_prop in H. destruct H as [H Hr].
+  apply andb_prop in H. destruct H as [Hv Hk].
+  rewrite sclone_l_cons, sclone_t_eq. destruct (unclonable v); [discriminate|].
+  rewrite tick_0. assert (E : (if name_alloc n then tick 0 else (0, false)) = (0, false)) by (destruct (name_alloc n); reflexivity).
+  rewrite E.
+  destruct (IH kk ltac:(rewrite fsize_cons, tsize_eq; lia) (S c) Hk) as (kk' & c1 & ->).
+  destruct (IH r ltac:(rewrite fsize_cons, tsize_eq; lia) c1 Hr) as (r' & c2 & ->). eauto.
 Qed.
 
 (* ---------------------------------------------------------------- set_parents *)
@@ -96,30 +139,164 @@ Proof.
   rewrite ids_f_cons, ids_t_eq, app_length. cbn [length]. lia.
 Qed.
 
+(* ---------------------------------------------------------------- the failure branch: destroy what was built *)
+Lemma rep_cell_l c par prv l aft i : rep_l c par prv l aft -> In i (ids_f l) -> exists nd, c i = Some nd.
+Proof.
+  intros H Hi. unfold rep_l, repc in H. rewrite Forall_forall in H.
+  rewrite <- (keys_exp_l l par prv aft) in Hi. apply in_map_iff in Hi. destruct Hi as ([j nd] & E & Hin).
+  cbn in E. subst j. exists nd. exact (H _ Hin).
+Qed.
+
+Lemma cleanup_spec : forall nl h g,
+  rep_l (cells h) None None nl None -> NoDup (ids_f nl) -> fsize nl < g -> fsize nl <= nextid h ->
+  exists h', clone_cleanup g h (hid nl) = ROk h' /\ nextid h' = nextid h /\
+    (forall i, cells h' i = if mem i (ids_f nl) then None else cells h i) /\
+    Permutation (freed h') (ids_f nl ++ freed h).
+Proof.
+  induction nl as [|[c n v kk] r IH]; intros h g R ND Hg Hn.
+  { destruct g; cbn [hid clone_cleanup]; exists h; (split; [reflexivity|]); (split; [reflexivity|]);
+      (split; [intros; reflexivity|reflexivity]). }
+  rewrite fsize_cons, tsize_eq in Hg, Hn. destruct g as [|g]; [lia|].
+  rewrite rep_l_cons, rep_t_eq in R. destruct R as ((Hc & Hkk) & Hr). cbn [tid] in Hr.
+  rewrite ids_f_cons, ids_t_eq in ND. inversion ND as [|? ? Nc ND']; subst.
+  apply NoDup_app_inv in ND'. destruct ND' as (NDk & NDr & Dj).
+  assert (Nck : ~ In c (ids_f kk)) by (intros K; apply Nc; apply in_or_app; auto).
+  assert (Ncr : ~ In c (ids_f r)) by (intros K; apply Nc; apply in_or_app; auto).
+  cbn [hid tid clone_cleanup].
+  rewrite (fld_ok _ _ _ _ Hc). cbn [rbind nnext].
+  (* unlink the head of the top-level list *)
+  destruct (exec_unlink h c _ Hc) as (h1 & E1 & [M1a M1b] & C1).
+  { cbn [nnext]. intros q Eq. apply hid_or_in in Eq. split; [intros ->; contradiction|].
+    eapply rep_cell_l; [exact Hr|exact Eq]. }
+  { cbn [nprev]. discriminate. }
+  { cbn [npar]. discriminate. }
+  rewrite E1. cbn [rbind]. cbn [nnext nprev npar nkid nname nval] in C1.
+  assert (C1c : cells h1 c = Some (mkN None None None (hid kk) n v)) by (rewrite C1, Nat.eqb_refl; reflexivity).
+  (* destroy it *)
+  unfold node_destroy. rewrite (get_ok _ _ _ C1c). cbn [rbind linked npar nnext nprev].
+  destruct (node_clear_spec h1 c _ kk (fuel_of h1) C1c eq_refl) as (h2 & E2 & N2 & C2 & P2).
+  { eapply rep_l_frame; [exact Hkk|]. intros i Hi. rewrite C1.
+    destruct (Nat.eqb_spec i c) as [->|]; [contradiction|].
+    destruct (peq (Some i) (hid_or r None)) eqn:Ep; [|reflexivity].
+    exfalso. destruct (hid_or r None) as [q|] eqn:Eq; [|discriminate]. cbn [peq] in Ep.
+    apply Nat.eqb_eq in Ep. subst q. apply hid_or_in in Eq. exact (Dj _ Hi Eq). }
+  { constructor; assumption. }
+  { unfold fuel_of. rewrite M1a. lia. }
+  rewrite E2. cbn [rbind].
+  assert (C2c : cells h2 c = Some (set_kid None (mkN None None None (hid kk) n v))) by (rewrite C2, Nat.eqb_refl; reflexivity).
+  rewrite (release_ok _ _ _ C2c). cbn [rbind].
+  set (h3 := mkH (upd (cells h2) c None) (nextid h2) (c :: freed h2)).
+  assert (C3 : forall i, cells h3 i =
+            if mem i (c :: ids_f kk) then None
+            else if peq (Some i) (hid r) then option_map (set_prev None) (cells h i) else cells h i).
+  { intros i. unfold h3. cbn [cells]. unfold upd at 1. rewrite mem_cons.
+    destruct (Nat.eqb_spec i c) as [->|Ni]; [reflexivity|]. cbn [orb].
+    rewrite C2. rewrite (proj2 (Nat.eqb_neq i c)) by assumption.
+    destruct (mem i (ids_f kk)); [reflexivity|]. rewrite C1.
+    rewrite (proj2 (Nat.eqb_neq i c)) by assumption. rewrite hid_hid_or. reflexivity. }
+  destruct (IH h3 g) as (h4 & E4 & N4 & C4 & P4).
+  { eapply rep_l_head_prev; [exact Hr|exact NDr|]. intros i Hi. rewrite C3.
+    rewrite mem_false; [reflexivity|]. intros [->|K]; [contradiction|]. exact (Dj _ K Hi). }
+  { exact NDr. }
+  { lia. }
+  { unfold h3. cbn [nextid]. rewrite N2, M1a. lia. }
+  rewrite <- hid_hid_or. rewrite E4. exists h4. split; [reflexivity|]. split; [|split].
+  - rewrite N4. unfold h3. cbn [nextid]. rewrite N2. exact M1a.
+  - intros i. rewrite C4, C3. rewrite ids_f_cons, ids_t_eq. change (c :: ids_f kk ++ ids_f r) with ((c :: ids_f kk) ++ ids_f r).
+    rewrite mem_app. destruct (mem i (ids_f r)) eqn:Mr; [rewrite orb_true_r; reflexivity|]. rewrite orb_false_r.
+    destruct (mem i (c :: ids_f kk)); [reflexivity|].
+    destruct (peq (Some i) (hid r)) eqn:Ep; [|reflexivity]. exfalso.
+    destruct r as [|tr rr]; [discriminate|]. cbn [hid peq] in Ep. apply Nat.eqb_eq in Ep. subst i.
+    apply in_mem_iff in Mr. apply Mr. rewrite ids_f_cons. destruct tr. rewrite ids_t_eq. left. reflexivity.
+  - rewrite P4. unfold h3. cbn [freed]. rewrite P2, M1b. rewrite ids_f_cons, ids_t_eq. cbn [app].
+    rewrite <- !app_assoc. rewrite Permutation_app_swap_app. cbn [app].
+    rewrite <- Permutation_middle. apply perm_skip. rewrite Permutation_app_swap_app. reflexivity.
+Qed.
+
 (* ---------------------------------------------------------------- the clone loop *)
-Lemma list_clone_S f h p : list_clone (S f) h p = clone_loop (fun h p => list_clone f h p) (S f) h p None None.
+Lemma list_clone_S f h p k :
+  list_clone (S f) h p k = clone_loop (fun h p k => list_clone f h p k) (S f) h p None None k.
 Proof. reflexivity. Qed.
 
 Definition in_range (lo hi : nat) (l : forest) : Prop := forall i, In i (ids_f l) -> lo <= i < hi.
 
-Lemma clone_loop_spec : forall todo h lo par prv nl f g,
+(* a clone loop that succeeded: the list built so far [nl] has grown by the copy [l'] *)
+Definition clone_done (h h' : heap) (nl l' : forest) (c' : nat) : Prop :=
+  nextid h' = c' /\ freed h' = freed h /\
+  rep_l (cells h') None None (nl ++ l') None /\
+  (forall i, i < nextid h -> ~ In i (ids_f nl) -> cells h' i = cells h i) /\
+  (forall i, c' <= i -> cells h' i = cells h i).
+
+(* one that failed: the list built so far and everything allocated since are gone, each
+   freed once; nothing else has changed *)
+Definition clone_failed (h h' : heap) (nl : forest) (c' : nat) : Prop :=
+  nextid h' = c' /\ nextid h <= c' /\
+  Permutation (freed h') (ids_f nl ++ seq (nextid h) (c' - nextid h) ++ freed h) /\
+  (forall i, i < nextid h -> ~ In i (ids_f nl) -> cells h' i = cells h i) /\
+  (forall i, In i (ids_f nl) -> cells h' i = None) /\
+  (forall i, nextid h <= i -> i < c' -> cells h' i = None) /\
+  (forall i, c' <= i -> cells h' i = cells h i).
+
+Definition clone_post (h h' : heap) (nl : forest) (res : ptr) (k' : nat) (sp : option forest * nat * nat) : Prop :=
+  match sp with
+  | (Some l', c', k'') => res = hid (nl ++ l') /\ k' = k'' /\ clone_done h h' nl l' c'
+  | (None, c', k'') => res = None /\ k' = k'' /\ clone_failed h h' nl c'
+  end.
+
+Lemma clone_post_fail h h' nl c k : clone_failed h h' nl c -> clone_post h h' nl None k (None, c, k).
+Proof. intros H. unfold clone_post. split; [reflexivity|]. split; [reflexivity|exact H]. Qed.
+
+Lemma fail_cleanup h hc nlc nl c' :
+  rep_l (cells hc) None None nlc None -> NoDup (ids_f nlc) -> fsize nlc <= nextid hc ->
+  nextid hc = c' -> nextid h <= c' ->
+  Permutation (ids_f nlc ++ freed hc) (ids_f nl ++ seq (nextid h) (c' - nextid h) ++ freed h) ->
+  (forall i, i < nextid h -> ~ In i (ids_f nl) -> ~ In i (ids_f nlc) /\ cells hc i = cells h i) ->
+  (forall i, In i (ids_f nl) -> In i (ids_f nlc)) ->
+  (forall i, nextid h <= i -> i < c' -> In i (ids_f nlc) \/ cells hc i = None) ->
+  (forall i, c' <= i -> ~ In i (ids_f nlc) /\ cells hc i = cells h i) ->
+  exists h', clone_cleanup (fuel_of hc) hc (hid nlc) = ROk h' /\ clone_failed h h' nl c'.
+Proof.
+  intros R ND Hs Hn Hle P F1 F2 F3 F4.
+  destruct (cleanup_spec nlc hc (fuel_of hc) R ND) as (h' & E & N & C & Pf); [unfold fuel_of; lia|exact Hs|].
+  exists h'. split; [exact E|]. unfold clone_failed. repeat split.
+  - rewrite N. exact Hn.
+  - exact Hle.
+  - rewrite Pf. exact P.
+  - intros i Hi1 Hi2. destruct (F1 i Hi1 Hi2) as [K1 K2]. rewrite C, (mem_false _ _ K1). exact K2.
+  - intros i Hi. rewrite C, (mem_true _ _ (F2 i Hi)). reflexivity.
+  - intros i Hi1 Hi2. rewrite C. destruct (mem i (ids_f nlc)) eqn:M; [reflexivity|].
+    destruct (F3 i Hi1 Hi2) as [K|K]; [apply mem_in in K; congruence|exact K].
+  - intros i Hi. destruct (F4 i Hi) as [K1 K2]. rewrite C, (mem_false _ _ K1). exact K2.
+Qed.
+
+Lemma hid_app_ne (a b : forest) : a <> [] -> hid (a ++ b) = hid a.
+Proof. destruct a; [contradiction|reflexivity]. Qed.
+
+Lemma sclone_l_some_hid t r c k l' c' k' : sclone_l (t :: r) c k = (Some l', c', k') -> hid l' = Some c.
+Proof.
+  rewrite sclone_l_cons. destruct t as [i n v kk]. rewrite sclone_t_eq.
+  destruct (unclonable v); [discriminate|]. destruct (tick k) as [k1 f]. destruct f; [discriminate|].
+  destruct (if name_alloc n then tick k1 else (k1, false)) as [k2 f2]. destruct f2; [discriminate|].
+  destruct (sclone_l kk (S c) k2) as [[[kk'|] c1] k3]; [|discriminate].
+  destruct (sclone_l r c1 k3) as [[[r'|] c2] k4]; [|discriminate].
+  intros E. inversion E. reflexivity.
+Qed.
+
+Lemma clone_loop_spec : forall todo h lo par prv nl f g k,
   rep_l (cells h) par prv todo None ->
   in_range 0 lo todo ->
   rep_l (cells h) None None nl None -> NoDup (ids_f nl) -> in_range lo (nextid h) nl ->
   lo <= nextid h ->
   fsize todo < f -> fsize todo < g ->
-  exists h', clone_loop (fun h p => list_clone f h p) g h (hid todo) (hid nl) (lastid nl None)
-             = ROk (h', hid (nl ++ fst (renum_l todo (nextid h)))) /\
-    nextid h' = snd (renum_l todo (nextid h)) /\ freed h' = freed h /\
-    rep_l (cells h') None None (nl ++ fst (renum_l todo (nextid h))) None /\
-    (forall i, i < nextid h -> ~ In i (ids_f nl) -> cells h' i = cells h i) /\
-    (forall i, snd (renum_l todo (nextid h)) <= i -> cells h' i = cells h i).
+  exists h' res k',
+    clone_loop (fun h p k => list_clone f h p k) g h (hid todo) (hid nl) (lastid nl None) k = ROk (h', res, k') /\
+    clone_post h h' nl res k' (sclone_l todo (nextid h) k).
 Proof.
   intros todo. induction todo as [todo IH] using (well_founded_induction (well_founded_ltof _ fsize)).
-  unfold ltof in IH. intros h lo par prv nl f g Rs Is Rn NDn In_ Hlo Hf Hg.
+  unfold ltof in IH. intros h lo par prv nl f g k Rs Is Rn NDn In_ Hlo Hf Hg.
   destruct todo as [|[s n v kk] r].
-  { destruct g as [|g]; [cbn in Hg; lia|]. cbn [hid clone_loop renum_l fst snd]. rewrite app_nil_r.
-    exists h. repeat split; auto. }
+  { destruct g as [|g]; [cbn in Hg; lia|]. cbn [hid clone_loop sclone_l].
+    exists h, (hid nl), k. split; [reflexivity|]. unfold clone_post, clone_done. rewrite !app_nil_r. repeat split; auto. }
   rewrite fsize_cons, tsize_eq in Hf, Hg.
   destruct g as [|g]; [lia|]. destruct f as [|f]; [lia|].
   rewrite rep_l_cons, rep_t_eq in Rs. destruct Rs as ((Hs & Hkk) & Hr).
@@ -129,13 +306,65 @@ Proof.
   assert (Is_r : in_range 0 lo r).
   { intros i Hi. apply Is. rewrite ids_f_cons, ids_t_eq. right. apply in_or_app. auto. }
   set (c := nextid h).
-  cbn [hid tid clone_loop].
+  assert (Nl_lt : forall i, In i (ids_f nl) -> i < c) by (intros i Hi; apply In_ in Hi; unfold c; lia).
+  assert (Nl_size : fsize nl <= c).
+  { rewrite fsize_ids. rewrite <- (seq_length c 0). apply NoDup_incl_length; [exact NDn|].
+    intros i Hi. apply in_seq. specialize (Nl_lt i Hi). lia. }
+  cbn [hid tid clone_loop]. rewrite sclone_l_cons, sclone_t_eq.
   (* 1. mpt_node_clone *)
-  unfold node_clone at 1. rewrite (get_ok _ _ _ Hs). cbn [rbind nname nval alloc]. fold c.
+  unfold node_clone at 1. rewrite (get_ok _ _ _ Hs). cbn [rbind nname nval].
+  (* the failures that leave the heap as it is *)
+  assert (Fail0 : forall k0 : nat, exists h',
+     (do h0 <- clone_cleanup (fuel_of h) h (hid nl); ROk (h0, @None nat, k0)) = ROk (h', @None nat, k0) /\
+     clone_failed h h' nl c).
+  { intros k0. destruct (fail_cleanup h h nl nl c Rn NDn Nl_size eq_refl (le_n _)) as (h' & E & CF).
+    - fold c. rewrite Nat.sub_diag. reflexivity.
+    - intros i Hi1 Hi2. auto.
+    - auto.
+    - intros i Hi1 Hi2. fold c in Hi1. lia.
+    - intros i Hi. split; [|reflexivity]. intros K. apply Nl_lt in K. lia.
+    - exists h'. rewrite E. split; [reflexivity|exact CF]. }
+  destruct (unclonable v).
+  { cbn [rbind]. destruct (Fail0 k) as (h' & E & CF). exists h', None, k. split; [exact E|]. apply clone_post_fail. exact CF. }
+  destruct (tick k) as [k1 f1]. destruct f1.
+  { cbn [rbind]. destruct (Fail0 k1) as (h' & E & CF). exists h', None, k1. split; [exact E|]. apply clone_post_fail. exact CF. }
+  unfold alloc. fold c.
   set (h1 := mkH (upd (cells h) c (Some (mkN None None None None n v))) (S c) (freed h)).
   assert (C1 : forall i, i <> c -> cells h1 i = cells h i) by (intros i Hi; apply upd_other; exact Hi).
   assert (C1c : cells h1 c = Some (mkN None None None None n v)) by apply upd_same.
-  assert (Nc : ~ In c (ids_f nl)) by (intros K; apply In_ in K; unfold c in K; lia).
+  assert (Nc : ~ In c (ids_f nl)) by (intros K; apply Nl_lt in K; lia).
+  (* the identifier copy *)
+  assert (Ident : exists k2 f2, (if name_alloc n then tick k1 else (k1, false)) = (k2, f2) /\
+     (if name_alloc n
+      then let '(k0, f0) := tick k1 in
+           if f0 then do h0 <- release h1 c; ROk (h0, @None nat, k0) else ROk (h1, Some c, k0)
+      else ROk (h1, Some c, k1)) =
+     (if f2 then do h0 <- release h1 c; ROk (h0, @None nat, k2) else ROk (h1, Some c, k2))).
+  { destruct (name_alloc n).
+    - destruct (tick k1) as [k0 f0]. exists k0, f0. split; reflexivity.
+    - exists k1, false. split; reflexivity. }
+  destruct Ident as (k2 & f2 & Et & En). rewrite Et, En. clear En.
+  destruct f2.
+  { (* mpt_identifier_copy failed: the copy is destroyed *)
+    rewrite (release_ok _ _ _ C1c). cbn [rbind].
+    set (h1' := mkH (upd (cells h1) c None) (nextid h1) (c :: freed h1)).
+    assert (C1' : forall i, i <> c -> cells h1' i = cells h i).
+    { intros i Hi. unfold h1'. cbn [cells]. rewrite upd_other by exact Hi. apply C1. exact Hi. }
+    assert (C1'c : cells h1' c = None) by (unfold h1'; cbn [cells]; apply upd_same).
+    destruct (fail_cleanup h h1' nl nl (S c)) as (h' & E & CF).
+    - eapply rep_l_frame; [exact Rn|]. intros i Hi. apply C1'. intros ->. contradiction.
+    - exact NDn.
+    - unfold h1'. cbn [nextid h1]. lia.
+    - reflexivity.
+    - fold c. lia.
+    - fold c. replace (S c - c) with 1 by lia. unfold h1'. cbn [freed h1 seq app]. reflexivity.
+    - intros i Hi1 Hi2. split; [exact Hi2|]. apply C1'. fold c in Hi1. lia.
+    - auto.
+    - intros i Hi1 Hi2. fold c in Hi1. assert (i = c) by lia. subst i. right. exact C1'c.
+    - intros i Hi. split; [intros K; apply Nl_lt in K; lia|]. apply C1'. lia.
+    - exists h', None, k2. split; [|apply clone_post_fail; exact CF].
+      fold h1'. rewrite E. reflexivity. }
+  cbn [rbind].
   (* 2. append the copy to the new list *)
   assert (S2 : exists h2,
      (match lastid nl None with
@@ -168,7 +397,6 @@ Proof.
         unfold plug. cbn [fst snd fold_left]. rewrite !ids_st_cons, ids_f_cons, ids_t_eq.
         cbn [ids_f ids_st flat_map app]. rewrite !app_nil_r. intros [K|K]; [congruence|contradiction]. }
   destruct S2 as (h2 & E2 & N2 & Fr2 & R2 & F2).
-  assert (L0 : lastid nl None = match lastid nl None with None => None | Some q => Some q end) by (destruct (lastid nl None); reflexivity).
   match goal with |- context [match lastid nl None with None => ?a | Some _ => ?b end] =>
     replace (match lastid nl None with None => a | Some _ => b end)
       with (ROk (h2, hid (nl ++ [T c n v []]), Some c)) by (rewrite <- E2; destruct (lastid nl None); reflexivity) end.
@@ -177,72 +405,115 @@ Proof.
   assert (Src2 : forall i, i < lo -> cells h2 i = cells h i).
   { intros i Hi. apply F2; [unfold c; lia|]. intros K. apply In_ in K. lia. }
   rewrite (fld_ok _ _ _ _ (eq_trans (Src2 s Is_s) Hs)). cbn [rbind nkid].
+  assert (NDn1 : NoDup (ids_f (nl ++ [T c n v []]))).
+  { rewrite ids_f_app, ids_f_cons, ids_t_eq. cbn [ids_f flat_map app]. 
+    apply NoDup_app_intro; [exact NDn|constructor; [intros []|constructor]|].
+    intros i Hi [K|[]]. subst. contradiction. }
   (* 3. the children *)
-  pose proof (renum_l_spec kk (S c)) as [Kids Kc].
-  destruct (renum_l kk (S c)) as [kk' c1] eqn:Ekk. cbn [fst snd] in Kids, Kc.
-  rewrite rep_l_mid in R2. destruct R2 as (R2a & R2c & _ & _). cbn [hid_or hid] in R2c.
-  assert (S3 : exists h5,
+  pose proof (sclone_l_spec kk (S c) k2) as Kspec.
+  pose proof R2 as R2'. rewrite rep_l_mid in R2'. destruct R2' as (R2a & R2c & _ & _). cbn [hid_or hid] in R2c.
+  assert (S3 : exists h5 ok k3',
      (match hid kk with
       | Some _ =>
-        do '(h, ck) <- list_clone (S f) h2 (hid kk);
-        do h <- wr set_kid h c ck; set_parents (fuel_of h) h ck c
-      | None => ROk h2
-      end) = ROk h5 /\
-     nextid h5 = c1 /\ freed h5 = freed h /\
-     rep_l (cells h5) None None (nl ++ [T c n v kk']) None /\
-     (forall i, i < c -> ~ In i (ids_f nl) -> cells h5 i = cells h i) /\
-     (forall i, c1 <= i -> cells h5 i = cells h2 i)).
+        do '(h0, ck, k0) <- list_clone (S f) h2 (hid kk) k2;
+        match ck with
+        | None => ROk (h0, false, k0)
+        | Some _ => do h0 <- wr set_kid h0 c ck; do h0 <- set_parents (fuel_of h0) h0 ck c; ROk (h0, true, k0)
+        end
+      | None => ROk (h2, true, k2)
+      end) = ROk (h5, ok, k3') /\
+     match sclone_l kk (S c) k2 with
+     | (Some kk', c1, k3) =>
+       ok = true /\ k3' = k3 /\
+       nextid h5 = c1 /\ freed h5 = freed h /\
+       rep_l (cells h5) None None (nl ++ [T c n v kk']) None /\
+       (forall i, i < c -> ~ In i (ids_f nl) -> cells h5 i = cells h i) /\
+       (forall i, c1 <= i -> cells h5 i = cells h2 i)
+     | (None, c1, k3) => ok = false /\ k3' = k3 /\ clone_failed h2 h5 [] c1
+     end).
   { destruct kk as [|tk rk].
-    - cbn [hid renum_l] in *. inversion Ekk; subst kk' c1. exists h2. split; [reflexivity|].
-      split; [exact N2|]. split; [exact Fr2|]. split; [|split; [|auto]].
-      + rewrite rep_l_mid. cbn [hid_or hid]. repeat split; auto; apply rep_l_nil.
-      + intros i Hi1 Hi2. apply F2; [lia|exact Hi2].
+    - cbn [hid sclone_l]. exists h2, true, k2. split; [reflexivity|]. split; [reflexivity|]. split; [reflexivity|].
+      split; [exact N2|]. split; [exact Fr2|]. split; [exact R2|]. split; [|auto].
+      intros i Hi1 Hi2. apply F2; [lia|exact Hi2].
     - set (kk := tk :: rk) in *. assert (Hk : hid kk = Some (tid tk)) by reflexivity. rewrite Hk, <- Hk.
       rewrite list_clone_S.
-      destruct (IH kk) with (h := h2) (lo := lo) (par := Some s) (prv := @None nat) (nl := @nil tree) (f := f) (g := S f)
-        as (h3 & E3 & N3 & Fr3 & R3 & F3 & G3); try (rewrite ?fsize_cons, ?tsize_eq; lia).
+      destruct (IH kk) with (h := h2) (lo := lo) (par := Some s) (prv := @None nat) (nl := @nil tree) (f := f) (g := S f) (k := k2)
+        as (h3 & r3 & k3' & E3 & M3); try (rewrite ?fsize_cons, ?tsize_eq; lia).
       { eapply rep_l_frame; [exact Hkk|]. intros i Hi. apply Src2. apply (Is_k i Hi). }
       { exact Is_k. }
       { apply rep_l_nil. }
       { constructor. }
       { intros i []. }
-      rewrite N2, Ekk in E3, N3, R3, G3. cbn [fst snd app hid lastid fold_left] in E3, N3, R3, G3.
-      rewrite E3. cbn [rbind].
-      assert (C3c : cells h3 c = cells h2 c) by (apply F3; [rewrite N2; lia|intros []]).
-      rewrite (wr_ok _ _ _ _ _ (eq_trans C3c R2c)). cbn [rbind set_kid nnext nprev npar nkid nname nval].
-      set (h4 := put h3 c (set_kid (hid kk') (mkN None (lastid nl None) None None n v))).
-      assert (NDk : NoDup (ids_f kk')) by (rewrite Kids; apply seq_NoDup).
-      assert (Ck : forall i, In i (ids_f kk') -> S c <= i < c1).
-      { intros i Hi. rewrite Kids in Hi. apply in_seq in Hi. lia. }
-      destruct (set_parents_spec kk' h4 None c (fuel_of h4)) as (h5 & E5 & [M5a M5b] & R5 & F5).
-      { eapply rep_l_frame; [exact R3|]. intros i Hi. unfold h4. rewrite cells_put.
-        destruct (Nat.eqb_spec i c) as [->|]; [|reflexivity]. apply Ck in Hi. lia. }
-      { exact NDk. }
-      { unfold fuel_of, h4. cbn [nextid put]. rewrite N3.
-        pose proof (length_le_ids kk'). rewrite Kids, seq_length in H. lia. }
-      rewrite E5. exists h5. split; [reflexivity|].
-      split; [rewrite M5a; unfold h4; cbn [nextid put]; exact N3|].
-      split; [rewrite M5b; unfold h4; cbn [freed put]; rewrite Fr3; exact Fr2|].
-      assert (C5 : forall i, ~ In i (ids_f kk') -> i <> c -> cells h5 i = cells h3 i).
-      { intros i Hi1 Hi2. rewrite F5 by exact Hi1. unfold h4. rewrite cells_put.
-        rewrite (proj2 (Nat.eqb_neq i c)) by exact Hi2. reflexivity. }
-      split; [|split].
-      + rewrite rep_l_mid. cbn [hid_or]. repeat split.
-        * eapply rep_l_frame; [exact R2a|]. intros i Hi.
-          assert (i < c) by (apply In_ in Hi; unfold c; lia).
-          rewrite C5; [apply F3; [rewrite N2; lia|intros []]| |lia].
-          intros K. apply Ck in K. lia.
-        * rewrite F5 by (intros K; apply Ck in K; lia). unfold h4. rewrite cells_put, Nat.eqb_refl. reflexivity.
-        * exact R5.
-        * apply rep_l_nil.
-      + intros i Hi1 Hi2. rewrite C5; [| intros K; apply Ck in K; lia | lia].
-        rewrite F3; [apply F2; [lia|exact Hi2]|rewrite N2; lia|intros []].
-      + intros i Hi. rewrite C5; [apply G3; exact Hi| intros K; apply Ck in K; lia | lia]. }
-  destruct S3 as (h5 & E5 & N5 & Fr5 & R5 & F5 & G5).
-  match goal with |- context [match hid kk with Some _ => ?a | None => ?b end] =>
-    replace (match hid kk with Some _ => a | None => b end) with (ROk (A:=heap) h5)
-      by (rewrite <- E5; destruct (hid kk); reflexivity) end.
-  cbn [rbind].
+      rewrite N2 in M3. cbn [hid lastid fold_left app] in E3. unfold clone_post in M3.
+      destruct (sclone_l kk (S c) k2) as [[[kk'|] c1] k3] eqn:Ekk.
+      + destruct M3 as (-> & -> & N3 & Fr3 & R3 & F3 & G3). cbn [app] in R3, E3.
+        destruct Kspec as (Kids & Kc & _).
+        rewrite E3. cbn [rbind].
+        assert (Hk' : hid kk' = Some (S c)) by (eapply sclone_l_some_hid; exact Ekk).
+        rewrite Hk'. rewrite <- Hk'.
+        assert (C3c : cells h3 c = cells h2 c) by (apply F3; [rewrite N2; lia|intros []]).
+        rewrite (wr_ok _ _ _ _ _ (eq_trans C3c R2c)). cbn [rbind set_kid nnext nprev npar nkid nname nval].
+        set (h4 := put h3 c (set_kid (hid kk') (mkN None (lastid nl None) None None n v))).
+        assert (NDk : NoDup (ids_f kk')) by (rewrite Kids; apply seq_NoDup).
+        assert (Ck : forall i, In i (ids_f kk') -> S c <= i < c1).
+        { intros i Hi. rewrite Kids in Hi. apply in_seq in Hi. lia. }
+        destruct (set_parents_spec kk' h4 None c (fuel_of h4)) as (h5 & E5 & [M5a M5b] & R5 & F5).
+        { eapply rep_l_frame; [exact R3|]. intros i Hi. unfold h4. rewrite cells_put.
+          destruct (Nat.eqb_spec i c) as [->|]; [|reflexivity]. apply Ck in Hi. lia. }
+        { exact NDk. }
+        { unfold fuel_of, h4. cbn [nextid put]. rewrite N3.
+          pose proof (length_le_ids kk'). rewrite Kids, seq_length in H. lia. }
+        rewrite E5. exists h5, true, k3. split; [reflexivity|]. split; [reflexivity|]. split; [reflexivity|].
+        split; [rewrite M5a; unfold h4; cbn [nextid put]; exact N3|].
+        split; [rewrite M5b; unfold h4; cbn [freed put]; rewrite Fr3; exact Fr2|].
+        assert (C5 : forall i, ~ In i (ids_f kk') -> i <> c -> cells h5 i = cells h3 i).
+        { intros i Hi1 Hi2. rewrite F5 by exact Hi1. unfold h4. rewrite cells_put.
+          rewrite (proj2 (Nat.eqb_neq i c)) by exact Hi2. reflexivity. }
+        split; [|split].
+        * rewrite rep_l_mid. cbn [hid_or]. repeat split.
+          -- eapply rep_l_frame; [exact R2a|]. intros i Hi.
+             assert (i < c) by (apply Nl_lt; exact Hi).
+             rewrite C5; [apply F3; [rewrite N2; lia|intros []]| |lia].
+             intros K. apply Ck in K. lia.
+          -- rewrite F5 by (intros K; apply Ck in K; lia). unfold h4. rewrite cells_put, Nat.eqb_refl. reflexivity.
+          -- exact R5.
+          -- apply rep_l_nil.
+        * intros i Hi1 Hi2. rewrite C5; [| intros K; apply Ck in K; lia | lia].
+          rewrite F3; [apply F2; [lia|exact Hi2]|rewrite N2; lia|intros []].
+        * intros i Hi. rewrite C5; [apply G3; exact Hi| intros K; apply Ck in K; lia | lia].
+      + destruct M3 as (-> & -> & CF3). rewrite E3. cbn [rbind]. exists h3, false, k3.
+        split; [reflexivity|]. split; [reflexivity|]. split; [reflexivity|exact CF3]. }
+  destruct S3 as (h5 & ok & k3' & E5 & S3). rewrite E5. cbn [rbind]. clear E5.
+  destruct (sclone_l kk (S c) k2) as [[[kk'|] c1] k3] eqn:Ekk.
+  2:{ (* the children could not be cloned: destroy the list with the childless copy *)
+    destruct S3 as (-> & -> & CF5).
+    destruct CF5 as (N5 & Le5 & P5 & F5 & _ & Z5 & G5). rewrite N2 in Le5, P5, F5, Z5. cbn [ids_f flat_map app] in P5.
+    destruct (fail_cleanup h h5 (nl ++ [T c n v []]) nl c1) as (h' & E & CF).
+    - eapply rep_l_frame; [exact R2|]. intros i Hi. apply F5; [|intros []].
+      rewrite ids_f_app, ids_f_cons, ids_t_eq in Hi. cbn [ids_f flat_map app] in Hi.
+      apply in_app_or in Hi. destruct Hi as [Hi|[Hi|[]]]; [apply Nl_lt in Hi; lia|lia].
+    - exact NDn1.
+    - rewrite fsize_app, fsize_cons, tsize_eq. cbn. rewrite N5. lia.
+    - exact N5.
+    - fold c. lia.
+    - fold c. rewrite P5, Fr2. rewrite ids_f_app, ids_f_cons, ids_t_eq. cbn [ids_f flat_map app].
+      rewrite <- !app_assoc. apply Permutation_app_head. cbn [app].
+      replace (c1 - c) with (S (c1 - S c)) by lia. reflexivity.
+    - intros i Hi1 Hi2. fold c in Hi1. split.
+      + rewrite ids_f_app, ids_f_cons, ids_t_eq. cbn [ids_f flat_map app]. intros K.
+        apply in_app_or in K. destruct K as [K|[K|[]]]; [contradiction|lia].
+      + rewrite F5; [apply F2; [lia|exact Hi2]|lia|intros []].
+    - intros i Hi. rewrite ids_f_app. apply in_or_app. auto.
+    - intros i Hi1 Hi2. fold c in Hi1. destruct (Nat.eq_dec i c) as [->|Ne].
+      + left. rewrite ids_f_app, ids_f_cons, ids_t_eq. apply in_or_app. right. left. reflexivity.
+      + right. apply Z5; lia.
+    - intros i Hi. split.
+      + rewrite ids_f_app, ids_f_cons, ids_t_eq. cbn [ids_f flat_map app]. intros K.
+        apply in_app_or in K. destruct K as [K|[K|[]]]; [apply Nl_lt in K; lia|lia].
+      + rewrite G5 by exact Hi. apply F2; [lia|]. intros K. apply Nl_lt in K. lia.
+    - exists h', None, k3. rewrite E. split; [reflexivity|]. apply clone_post_fail. exact CF. }
+  destruct S3 as (-> & -> & N5 & Fr5 & R5 & F5 & G5).
+  destruct Kspec as (Kids & Kc & _).
   (* 4. next source node and the rest of the loop *)
   assert (Src5 : forall i, i < lo -> cells h5 i = cells h i).
   { intros i Hi. apply F5; [unfold c; lia|]. intros K. apply In_ in K. lia. }
@@ -251,29 +522,49 @@ Proof.
   { intros i Hi. rewrite ids_f_app, ids_f_cons, ids_t_eq in Hi. cbn [ids_f flat_map] in Hi. rewrite app_nil_r in Hi.
     apply in_app_or in Hi. destruct Hi as [Hi|[Hi|Hi]]; [auto|right; lia|].
     rewrite Kids in Hi. apply in_seq in Hi. right. lia. }
-  destruct (IH r) with (h := h5) (lo := lo) (par := par) (prv := Some s) (nl := nl ++ [T c n v kk']) (f := S f) (g := g)
-    as (h6 & E6 & N6 & Fr6 & R6 & F6 & G6); try (rewrite ?fsize_cons, ?tsize_eq; lia).
+  assert (IdsN' : forall i, c <= i < c1 -> In i (ids_f (nl ++ [T c n v kk']))).
+  { intros i Hi. rewrite ids_f_app, ids_f_cons, ids_t_eq. cbn [ids_f flat_map]. rewrite app_nil_r.
+    apply in_or_app. right. destruct (Nat.eq_dec i c) as [->|Ne]; [left; reflexivity|right].
+    rewrite Kids. apply in_seq. lia. }
+  destruct (IH r) with (h := h5) (lo := lo) (par := par) (prv := Some s) (nl := nl ++ [T c n v kk']) (f := S f) (g := g) (k := k3)
+    as (h6 & r6 & k6 & E6 & M6); try (rewrite ?fsize_cons, ?tsize_eq; lia).
   { eapply rep_l_frame; [exact Hr|]. intros i Hi. apply Src5. apply (Is_r i Hi). }
   { exact Is_r. }
   { exact R5. }
   { rewrite ids_f_app, ids_f_cons, ids_t_eq. cbn [ids_f flat_map]. rewrite app_nil_r.
     apply NoDup_app_intro; [exact NDn| |].
     - constructor; [rewrite Kids; intros K; apply in_seq in K; lia|rewrite Kids; apply seq_NoDup].
-    - intros i Hi [K|K]; [subst; contradiction|]. apply In_ in Hi. rewrite Kids in K. apply in_seq in K. unfold c in *. lia. }
+    - intros i Hi [K|K]; [subst; contradiction|]. apply Nl_lt in Hi. rewrite Kids in K. apply in_seq in K. lia. }
   { intros i Hi. rewrite N5. destruct (IdsN i Hi) as [K|K]; [apply In_ in K; unfold c in *; lia|lia]. }
-  rewrite N5 in E6, N6, R6, F6, G6.
-  rewrite renum_l_cons, renum_t_eq. fold c. rewrite Ekk.
-  destruct (renum_l r c1) as [r' c2] eqn:Er. cbn [fst snd] in *.
+  rewrite N5 in M6. unfold clone_post in M6 |- *.
   assert (Lst : lastid (nl ++ [T c n v kk']) None = Some c) by (rewrite lastid_app; reflexivity).
   assert (Hd : hid (nl ++ [T c n v kk']) = hid (nl ++ [T c n v []])) by (destruct nl; reflexivity).
-  rewrite Lst, Hd in E6. rewrite E6. rewrite <- app_assoc in R6 |- *. cbn [app] in R6 |- *.
-  exists h6. split; [reflexivity|]. split; [exact N6|]. split; [rewrite Fr6; exact Fr5|]. split; [exact R6|].
-  pose proof (renum_l_spec r c1) as [_ Rc]. rewrite Er in Rc. cbn [snd] in Rc.
-  split.
-  - intros i Hi1 Hi2. rewrite F6; [apply F5; [exact Hi1|exact Hi2]|lia|].
-    intros K. destruct (IdsN i K) as [K'|K']; [contradiction|lia].
-  - intros i Hi. rewrite G6 by exact Hi. rewrite G5 by lia. apply F2; [lia|].
-    intros K. apply In_ in K. unfold c in *. lia.
+  rewrite Lst, Hd in E6.
+  destruct (sclone_l r c1 k3) as [[[r'|] c2] k4] eqn:Er.
+  - destruct M6 as (-> & -> & N6 & Fr6 & R6 & F6 & G6).
+    rewrite E6. rewrite <- app_assoc in R6 |- *. cbn [app] in R6 |- *.
+    exists h6, (hid (nl ++ T c n v kk' :: r')), k4. split; [reflexivity|]. split; [reflexivity|]. split; [reflexivity|]. unfold clone_done.
+    split; [exact N6|]. split; [rewrite Fr6; exact Fr5|]. split; [exact R6|].
+    pose proof (sclone_l_spec r c1 k3) as Rs. rewrite Er in Rs. destruct Rs as (_ & Rc & _).
+    split.
+    + intros i Hi1 Hi2. fold c in Hi1. rewrite F6; [apply F5; [exact Hi1|exact Hi2]|rewrite N5; lia|].
+      intros K. destruct (IdsN i K) as [K'|K']; [contradiction|lia].
+    + intros i Hi. rewrite G6 by exact Hi. rewrite G5 by lia. apply F2; [lia|].
+      intros K. apply Nl_lt in K. lia.
+  - destruct M6 as (-> & -> & N6 & Le6 & P6 & F6 & Z6 & Y6 & G6). rewrite N5 in Le6, P6, F6, Y6.
+    rewrite E6. exists h6, None, k4. split; [reflexivity|]. split; [reflexivity|]. split; [reflexivity|]. unfold clone_failed. fold c.
+    split; [exact N6|]. split; [lia|]. split; [|split; [|split; [|split]]].
+    + rewrite P6, Fr5. rewrite ids_f_app, ids_f_cons, ids_t_eq, Kids. cbn [ids_f flat_map]. rewrite app_nil_r.
+      rewrite <- !app_assoc. apply Permutation_app_head. rewrite app_assoc. apply Permutation_app_tail.
+      change (c :: seq (S c) (fsize kk)) with (seq c (S (fsize kk))).
+      replace (c2 - c) with (S (fsize kk) + (c2 - c1)) by lia. rewrite seq_app.
+      replace (c + S (fsize kk)) with c1 by lia. reflexivity.
+    + intros i Hi1 Hi2. rewrite F6; [apply F5; [exact Hi1|exact Hi2]|lia|].
+      intros K. destruct (IdsN i K) as [K'|K']; [contradiction|lia].
+    + intros i Hi. apply Z6. rewrite ids_f_app. apply in_or_app. auto.
+    + intros i Hi1 Hi2. destruct (Nat.lt_ge_cases i c1) as [L|L]; [apply Z6; apply IdsN'; lia|apply Y6; lia].
+    + intros i Hi. rewrite G6 by exact Hi. rewrite G5 by lia. apply F2; [lia|].
+      intros K. apply Nl_lt in K. lia.
 Qed.
 
 (* ---------------------------------------------------------------- a fresh top-level list *)
@@ -304,7 +595,51 @@ Proof.
   - rewrite Fr. exact (i_freed _ _ I).
 Qed.
 
-Lemma step_clone x : refines_step (OClone x).
+(* a failed clone: the forest is as before, the ids consumed are freed *)
+Lemma inv_failed h s h' c' :
+  inv h s -> clone_failed h h' [] c' ->
+  inv h' (mkS (lists s) c' (seq (scount s) (c' - scount s) ++ sfreed s)).
+Proof.
+  intros I (N & Le & P & F & _ & Z & G). pose proof (i_cnt _ _ I) as C. cbn [ids_f flat_map app] in P.
+  assert (Dead : forall i, nextid h <= i -> cells h i = None).
+  { intros i Hi. destruct (cells h i) eqn:E; [|reflexivity]. exfalso.
+    assert (K : In i (ids_st (lists s))) by (apply (i_dom _ _ I); rewrite E; discriminate).
+    pose proof (inv_bound _ _ _ I K). lia. }
+  constructor; cbn [lists scount sfreed].
+  - eapply rep_st_frame; [exact (i_rep _ _ I)|]. intros i Hi. apply F; [exact (inv_bound _ _ _ I Hi)|intros []].
+  - exact N.
+  - rewrite <- C. replace c' with (nextid h + (c' - nextid h)) at 2 by lia. rewrite seq_app. cbn [plus].
+    rewrite app_assoc. rewrite (Permutation_app_comm (ids_st (lists s)) (seq _ _)). rewrite <- app_assoc.
+    rewrite Permutation_app_comm. apply Permutation_app_tail. rewrite C. exact (i_perm _ _ I).
+  - intros i Hi. apply (i_dom _ _ I).
+    destruct (Nat.lt_ge_cases i (nextid h)) as [L|L]; [rewrite <- (F i L); [exact Hi|intros []]|].
+    exfalso. apply Hi. destruct (Nat.lt_ge_cases i c') as [L2|L2]; [apply Z; assumption|].
+    rewrite G by exact L2. apply Dead. exact L.
+  - rewrite P, <- C. apply Permutation_app_head. exact (i_freed _ _ I).
+Qed.
+
+Lemma sstate_eta s : mkS (lists s) (scount s) (sfreed s) = s.
+Proof. destruct s; reflexivity. Qed.
+
+Lemma clone_failed_refl h : clone_failed h h [] (nextid h).
+Proof.
+  unfold clone_failed. rewrite Nat.sub_diag. cbn. repeat split; auto; try contradiction. intros. lia.
+Qed.
+
+(* what the three clone operations have in common *)
+Lemma clone_finish h s h' res k' sp :
+  inv h s -> clone_post h h' [] res k' sp ->
+  (forall l' c' k'', sp = (Some l', c', k'') -> res = Some (scount s) /\ nextid h <= c' /\ ids_f l' = seq (nextid h) (c' - nextid h)) ->
+  inv h' (fst (clone_result s sp)) /\ snd (clone_result s sp) = OutP res.
+Proof.
+  intros I Post Hs. destruct sp as [[[l'|] c'] k'']; cbn [clone_post clone_result fst snd app] in *.
+  - destruct Post as (-> & -> & N & Fr & R & F & G). destruct (Hs _ _ _ eq_refl) as (E & Le & Ids).
+    split; [|rewrite E; reflexivity].
+    apply (inv_extend h s); auto. all: intros i Hi; apply F; [exact Hi|intros []].
+  - destruct Post as (-> & -> & CF). split; [|reflexivity]. apply (inv_failed h); assumption.
+Qed.
+
+Lemma step_clone x k : refines_step (OClone x k).
 Proof.
   intros h s I. cbn [mstep sstep]. rewrite (live_iff _ _ _ I).
   destruct (focus x (lists s)) as [[[[[frs o] l1] tx] l2]|] eqn:FX.
@@ -312,27 +647,66 @@ Proof.
       { destruct (slive s x) eqn:Sl; [|reflexivity]. apply mem_in in Sl. exfalso. exact (focus_st_none _ _ _ FX Sl). }
       rewrite Sl. cbn [fst snd]. eexists; split; [reflexivity|exact I]. }
   assert (Sl : slive s x = true) by (apply mem_in; eapply focus_in; exact FX).
-  rewrite Sl. cbn [fst snd].
+  rewrite Sl.
   destruct (focus_cell _ _ _ _ _ _ _ _ (i_rep _ _ I) FX) as [Hc _].
-  unfold node_clone. rewrite (get_ok _ _ _ Hc). cbn [rbind nname nval alloc]. rewrite (i_cnt _ _ I).
-  eexists. split; [reflexivity|].
-  apply (inv_extend h s); cbn [nextid cells freed]; rewrite ?(i_cnt _ _ I); auto.
-  - rewrite rep_l_cons, rep_t_eq. cbn [hid hid_or]. repeat split; try apply rep_l_nil. apply upd_same.
-  - replace (S (scount s) - scount s) with 1 by lia. reflexivity.
-  - intros i Hi. apply upd_other. lia.
-  - intros i Hi. apply upd_other. lia.
+  pose proof (i_cnt _ _ I) as C.
+  assert (Post : exists h' res k',
+     node_clone h (Some x) k = ROk (h', res, k') /\
+     clone_post h h' [] res k' (sclone_l [T (tid tx) (tname tx) (tval tx) []] (nextid h) k)).
+  { unfold node_clone. rewrite (get_ok _ _ _ Hc). cbn [rbind nname nval].
+    rewrite sclone_l_cons, sclone_t_eq.
+    destruct (unclonable (tval tx)).
+    { exists h, None, k. split; [reflexivity|]. apply clone_post_fail. apply clone_failed_refl. }
+    destruct (tick k) as [k1 f1]. destruct f1.
+    { exists h, None, k1. split; [reflexivity|]. apply clone_post_fail. apply clone_failed_refl. }
+    unfold alloc. set (c := nextid h).
+    set (h1 := mkH (upd (cells h) c (Some (mkN None None None None (tname tx) (tval tx)))) (S c) (freed h)).
+    assert (Ok : forall k0, clone_post h h1 [] (Some c) k0 (Some [T c (tname tx) (tval tx) []], S c, k0)).
+    { intros k0. unfold clone_post, clone_done. cbn [app hid tid]. repeat split; auto.
+      - rewrite rep_l_cons, rep_t_eq. cbn [hid hid_or]. repeat split; try apply rep_l_nil. apply upd_same.
+      - intros i Hi _. apply upd_other. fold c in Hi. lia.
+      - intros i Hi. apply upd_other. lia. }
+    destruct (name_alloc (tname tx)).
+    - destruct (tick k1) as [k2 f2]. destruct f2.
+      + rewrite (release_ok h1 c _ (upd_same _ _ _)). cbn [rbind].
+        eexists _, None, k2. split; [reflexivity|]. apply clone_post_fail.
+        unfold clone_failed. cbn [nextid cells freed h1 ids_f flat_map app]. fold c.
+        replace (S c - c) with 1 by lia. repeat split; auto.
+        * intros i Hi _. rewrite upd_other by lia. apply upd_other. lia.
+        * intros i [].
+        * intros i Hi1 Hi2. assert (i = c) by lia. subst. apply upd_same.
+        * intros i Hi. rewrite upd_other by lia. apply upd_other. lia.
+      + cbn [sclone_l]. exists h1, (Some c), k2. split; [reflexivity|]. apply Ok.
+    - cbn [sclone_l]. exists h1, (Some c), k1. split; [reflexivity|]. apply Ok. }
+  destruct Post as (h' & res & k' & E & Post). rewrite E. cbn [rbind]. rewrite C in Post.
+  destruct (clone_finish h s h' res k' _ I Post) as [I' O'].
+  - intros l' c' k'' Es. pose proof (sclone_l_spec [T (tid tx) (tname tx) (tval tx) []] (scount s) k) as Sp.
+    rewrite Es in Sp. destruct Sp as (Ids & Cn & _).
+    unfold clone_post in Post. rewrite Es in Post. destruct Post as (-> & _).
+    cbn [app]. split; [eapply sclone_l_some_hid; exact Es|]. rewrite C. split; [lia|].
+    rewrite Ids. f_equal. lia.
+  - exists h'. rewrite O'. split; [reflexivity|exact I'].
 Qed.
 
-Lemma step_new' nm v : refines_step (ONew nm v).
-Proof. exact (step_new nm v). Qed.
-
-Lemma hid_renum t r c : hid (fst (renum_l (t :: r) c)) = Some c.
+Lemma focus_sub_len h s x frs o l1 tx l2 :
+  inv h s -> focus x (lists s) = Some ((frs, o), l1, tx, l2) ->
+  (forall i, In i (ids_f (tx :: l2)) -> In i (ids_st (lists s))) /\ fsize (tx :: l2) <= nextid h.
 Proof.
-  rewrite renum_l_cons. destruct t as [i n v k]. rewrite renum_t_eq.
-  destruct (renum_l k (S c)) as [k' c1]. destruct (renum_l r c1) as [r' c2]. reflexivity.
+  intros I FX. destruct (focus_perm _ _ _ _ _ _ _ FX) as [P Ex].
+  assert (Sub : forall i, In i (ids_f (tx :: l2)) -> In i (ids_st (lists s))).
+  { intros i Hi. eapply Permutation_in; [symmetry; apply ids_st_perm; exact P|].
+    eapply Permutation_in; [symmetry; apply ids_plug|]. apply in_or_app. left.
+    rewrite ids_f_app. apply in_or_app. auto. }
+  split; [exact Sub|].
+  rewrite fsize_ids. etransitivity; [|exact (inv_length _ _ I)].
+  apply NoDup_incl_length; [|exact Sub].
+  assert (ND : NoDup (ids_st (plug (frs, o) (l1 ++ tx :: l2)))).
+  { eapply Permutation_NoDup; [apply ids_st_perm; exact P|exact (inv_nodup _ _ I)]. }
+  eapply Permutation_NoDup in ND; [|apply ids_plug]. apply NoDup_app_inv in ND. destruct ND as (ND & _).
+  rewrite ids_f_app in ND. apply NoDup_app_inv in ND. tauto.
 Qed.
 
-Lemma step_lclone x : refines_step (OLClone x).
+Lemma step_lclone x k : refines_step (OLClone x k).
 Proof.
   intros h s I. cbn [mstep sstep]. rewrite (live_iff _ _ _ I).
   destruct (focus x (lists s)) as [[[[[frs o] l1] tx] l2]|] eqn:FX.
@@ -344,43 +718,27 @@ Proof.
   destruct (focus_cell _ _ _ _ _ _ _ _ (i_rep _ _ I) FX) as [_ R].
   destruct (focus_perm _ _ _ _ _ _ _ FX) as [P Ex].
   rewrite rep_plug in R. destruct R as (Rl & _ & _). rewrite rep_l_app in Rl. destruct Rl as [_ Rl].
-  assert (Sub : forall i, In i (ids_f (tx :: l2)) -> In i (ids_st (lists s))).
-  { intros i Hi. eapply Permutation_in; [symmetry; apply ids_st_perm; exact P|].
-    eapply Permutation_in; [symmetry; apply ids_plug|]. apply in_or_app. left.
-    rewrite ids_f_app. apply in_or_app. auto. }
-  assert (Len : fsize (tx :: l2) <= nextid h).
-  { rewrite fsize_ids. etransitivity; [|exact (inv_length _ _ I)].
-    apply NoDup_incl_length; [|exact Sub].
-    assert (ND : NoDup (ids_st (plug (frs, o) (l1 ++ tx :: l2)))).
-    { eapply Permutation_NoDup; [apply ids_st_perm; exact P|exact (inv_nodup _ _ I)]. }
-    eapply Permutation_NoDup in ND; [|apply ids_plug]. apply NoDup_app_inv in ND. destruct ND as (ND & _).
-    rewrite ids_f_app in ND. apply NoDup_app_inv in ND. tauto. }
+  destruct (focus_sub_len _ _ _ _ _ _ _ _ I FX) as [Sub Len].
   unfold fuel_of. rewrite list_clone_S.
-  destruct (clone_loop_spec (tx :: l2) h (nextid h) (cpar frs) (lastid l1 None) [] (S (nextid h)) (S (S (nextid h))))
-    as (h' & E & N & Fr & R' & F & G); try lia.
+  destruct (clone_loop_spec (tx :: l2) h (nextid h) (cpar frs) (lastid l1 None) [] (S (nextid h)) (S (S (nextid h))) k)
+    as (h' & res & k' & E & Post); try lia.
   { exact Rl. }
   { intros i Hi. split; [lia|]. apply (inv_bound _ _ _ I). apply Sub. exact Hi. }
   { apply rep_l_nil. }
   { constructor. }
   { intros i []. }
-  cbn [hid lastid fold_left app] in E, R'. rewrite Ex in E. rewrite E. cbn [rbind].
-  rewrite (i_cnt _ _ I) in *.
-  pose proof (renum_l_spec (tx :: l2) (scount s)) as [Ids Cn].
-  rewrite hid_renum.
-  destruct (renum_l (tx :: l2) (scount s)) as [l' c'] eqn:Er. cbn [fst snd] in *.
-  exists h'. split; [reflexivity|].
-  apply (inv_extend h s); rewrite ?(i_cnt _ _ I).
-  - exact I.
-  - lia.
-  - exact N.
-  - exact Fr.
-  - exact R'.
-  - rewrite Ids. f_equal. lia.
-  - intros i Hi. apply F; [exact Hi|intros []].
-  - exact G.
+  cbn [hid lastid fold_left app] in E. rewrite Ex in E. rewrite E. cbn [rbind].
+  pose proof (i_cnt _ _ I) as C. rewrite C in Post.
+  destruct (clone_finish h s h' res k' _ I Post) as [I' O'].
+  - intros l' c' k'' Es. pose proof (sclone_l_spec (tx :: l2) (scount s) k) as Sp.
+    rewrite Es in Sp. destruct Sp as (Ids & Cn & _).
+    unfold clone_post in Post. rewrite Es in Post. destruct Post as (-> & _).
+    cbn [app]. split; [eapply sclone_l_some_hid; exact Es|]. rewrite C. split; [lia|].
+    rewrite Ids. f_equal. lia.
+  - exists h'. rewrite O'. split; [reflexivity|exact I'].
 Qed.
 
-Lemma step_tclone x : refines_step (OTClone x).
+Lemma step_tclone x k : refines_step (OTClone x k).
 Proof.
   intros h s I. cbn [mstep sstep]. rewrite (live_iff _ _ _ I).
   destruct (focus x (lists s)) as [[[[[frs o] l1] tx] l2]|] eqn:FX.
@@ -392,77 +750,131 @@ Proof.
   destruct (focus_cell _ _ _ _ _ _ _ _ (i_rep _ _ I) FX) as [Hc R].
   destruct (focus_perm _ _ _ _ _ _ _ FX) as [P Ex].
   rewrite rep_plug in R. destruct R as (Rl & _ & _).
+  destruct (focus_sub_len _ _ _ _ _ _ _ _ I FX) as [Sub0 Len0].
   destruct tx as [x' n v kx]. cbn [tid tname tval tkids] in *. subst x'.
   rewrite rep_l_mid in Rl. destruct Rl as (_ & _ & Rk & _).
   assert (Sub : forall i, In i (x :: ids_f kx) -> In i (ids_st (lists s))).
-  { intros i Hi. eapply Permutation_in; [symmetry; apply ids_st_perm; exact P|].
-    eapply Permutation_in; [symmetry; apply ids_plug|]. apply in_or_app. left.
-    rewrite ids_f_app, ids_f_cons, ids_t_eq. apply in_or_app. right. apply in_or_app. left. exact Hi. }
+  { intros i Hi. apply Sub0. rewrite ids_f_cons, ids_t_eq. apply in_or_app. left. exact Hi. }
   assert (Len : S (fsize kx) <= nextid h).
-  { rewrite fsize_ids. etransitivity; [|exact (inv_length _ _ I)].
-    change (S (length (ids_f kx))) with (length (x :: ids_f kx)).
-    apply NoDup_incl_length; [|exact Sub].
-    assert (ND : NoDup (ids_st (plug (frs, o) (l1 ++ T x n v kx :: l2)))).
-    { eapply Permutation_NoDup; [apply ids_st_perm; exact P|exact (inv_nodup _ _ I)]. }
-    eapply Permutation_NoDup in ND; [|apply ids_plug]. apply NoDup_app_inv in ND. destruct ND as (ND & _).
-    rewrite ids_f_app, ids_f_cons, ids_t_eq in ND. apply NoDup_app_inv in ND. destruct ND as (_ & ND & _).
-    apply NoDup_app_inv in ND. tauto. }
-  unfold tree_clone, node_clone. rewrite (get_ok _ _ _ Hc). cbn [rbind nname nval alloc].
-  set (c := nextid h).
-  set (h1 := mkH (upd (cells h) c (Some (mkN None None None None n v))) (S c) (freed h)).
-  assert (C1 : forall i, i <> c -> cells h1 i = cells h i) by (intros i Hi; apply upd_other; exact Hi).
-  assert (C1c : cells h1 c = Some (mkN None None None None n v)) by apply upd_same.
-  assert (Xc : x < c) by (apply (inv_bound _ _ _ I); apply Sub; left; reflexivity).
-  rewrite (fld_ok _ _ _ _ (eq_trans (C1 x ltac:(lia)) Hc)). cbn [rbind nkid].
-  rewrite renum_t_eq. rewrite <- (i_cnt _ _ I). fold c.
-  pose proof (renum_l_spec kx (S c)) as [Kids Kc].
-  destruct (renum_l kx (S c)) as [kk' c1] eqn:Ekk. cbn [fst snd] in Kids, Kc.
-  destruct kx as [|tk rk].
-  - cbn [hid renum_l] in *. inversion Ekk; subst kk' c1. cbn [fst snd].
-    exists h1. split; [reflexivity|].
-    apply (inv_extend h s); cbn [nextid cells freed h1]; fold c; auto.
-    + rewrite rep_l_cons, rep_t_eq. cbn [hid hid_or]. repeat split; try apply rep_l_nil. exact C1c.
-    + replace (S c - c) with 1 by lia. reflexivity.
-    + intros i Hi. apply C1. lia.
-    + intros i Hi. apply C1. lia.
-  - set (kx := tk :: rk) in *. assert (Hk : hid kx = Some (tid tk)) by reflexivity. rewrite Hk, <- Hk.
+  { rewrite fsize_cons, tsize_eq in Len0. lia. }
+  pose proof (i_cnt _ _ I) as C.
+  assert (Post : exists h' res k',
+     tree_clone h (Some x) k = ROk (h', res, k') /\
+     clone_post h h' [] res k' (sclone_l [T x n v kx] (nextid h) k)).
+  { unfold tree_clone, node_clone. rewrite (get_ok _ _ _ Hc). cbn [rbind nname nval].
+    rewrite sclone_l_cons, sclone_t_eq.
+    destruct (unclonable v).
+    { exists h, None, k. split; [reflexivity|]. apply clone_post_fail. apply clone_failed_refl. }
+    destruct (tick k) as [k1 f1]. destruct f1.
+    { exists h, None, k1. split; [reflexivity|]. apply clone_post_fail. apply clone_failed_refl. }
+    unfold alloc. set (c := nextid h).
+    set (h1 := mkH (upd (cells h) c (Some (mkN None None None None n v))) (S c) (freed h)).
+    assert (C1 : forall i, i <> c -> cells h1 i = cells h i) by (intros i Hi; apply upd_other; exact Hi).
+    assert (C1c : cells h1 c = Some (mkN None None None None n v)) by apply upd_same.
+    assert (Xc : x < c) by (apply (inv_bound _ _ _ I); apply Sub; left; reflexivity).
+    assert (Ident : exists k2 f2, (if name_alloc n then tick k1 else (k1, false)) = (k2, f2) /\
+       (if name_alloc n
+        then let '(k0, f0) := tick k1 in
+             if f0 then do h0 <- release h1 c; ROk (h0, @None nat, k0) else ROk (h1, Some c, k0)
+        else ROk (h1, Some c, k1)) =
+       (if f2 then do h0 <- release h1 c; ROk (h0, @None nat, k2) else ROk (h1, Some c, k2))).
+    { destruct (name_alloc n).
+      - destruct (tick k1) as [k0 f0]. exists k0, f0. split; reflexivity.
+      - exists k1, false. split; reflexivity. }
+    destruct Ident as (k2 & f2 & Et & En). rewrite Et, En. clear En.
+    destruct f2.
+    { rewrite (release_ok h1 c _ C1c). cbn [rbind].
+      eexists _, None, k2. split; [reflexivity|]. apply clone_post_fail.
+      unfold clone_failed. cbn [nextid cells freed h1 ids_f flat_map app]. fold c.
+      replace (S c - c) with 1 by lia. repeat split; auto.
+      * intros i Hi _. rewrite upd_other by lia. apply upd_other. lia.
+      * intros i [].
+      * intros i Hi1 Hi2. assert (i = c) by lia. subst. apply upd_same.
+      * intros i Hi. rewrite upd_other by lia. apply upd_other. lia. }
+    cbn [rbind].
+    rewrite (fld_ok _ _ _ _ (eq_trans (C1 x ltac:(lia)) Hc)). cbn [rbind nkid].
+    destruct kx as [|tk rk].
+    { cbn [hid sclone_l]. exists h1, (Some c), k2. split; [reflexivity|].
+      unfold clone_post, clone_done. cbn [app hid tid]. repeat split; auto.
+      - rewrite rep_l_cons, rep_t_eq. cbn [hid hid_or]. repeat split; try apply rep_l_nil. exact C1c.
+      - intros i Hi _. apply C1. fold c in Hi. lia.
+      - intros i Hi. apply C1. lia. }
+    set (kx := tk :: rk) in *. assert (Hk : hid kx = Some (tid tk)) by reflexivity. rewrite Hk, <- Hk.
     unfold fuel_of at 1. cbn [nextid h1]. rewrite list_clone_S.
-    destruct (clone_loop_spec kx h1 c (Some x) None [] (S (S c)) (S (S (S c))))
-      as (h3 & E3 & N3 & Fr3 & R3 & F3 & G3); try (cbn [nextid h1]; lia).
+    destruct (clone_loop_spec kx h1 c (Some x) None [] (S (S c)) (S (S (S c))) k2)
+      as (h3 & r3 & k3' & E3 & M3); try (cbn [nextid h1]; lia).
     { eapply rep_l_frame; [exact Rk|]. intros i Hi. apply C1.
       assert (i < c) by (apply (inv_bound _ _ _ I); apply Sub; right; exact Hi). lia. }
     { intros i Hi. split; [lia|]. apply (inv_bound _ _ _ I). apply Sub. right. exact Hi. }
     { apply rep_l_nil. }
     { constructor. }
     { intros i []. }
-    cbn [nextid h1] in E3, N3, R3, F3, G3. rewrite Ekk in E3, N3, R3, G3.
-    cbn [fst snd app hid lastid fold_left] in E3, N3, R3, G3.
-    rewrite E3. cbn [rbind].
-    assert (C3c : cells h3 c = cells h1 c) by (apply F3; [lia|intros []]).
-    rewrite (wr_ok _ _ _ _ _ (eq_trans C3c C1c)). cbn [rbind].
-    set (h4 := put h3 c (set_kid (hid kk') (mkN None None None None n v))).
-    assert (NDk : NoDup (ids_f kk')) by (rewrite Kids; apply seq_NoDup).
-    assert (Ck : forall i, In i (ids_f kk') -> S c <= i < c1).
-    { intros i Hi. rewrite Kids in Hi. apply in_seq in Hi. lia. }
-    destruct (set_parents_spec kk' h4 None c (fuel_of h4)) as (h5 & E5 & [M5a M5b] & R5 & F5).
-    { eapply rep_l_frame; [exact R3|]. intros i Hi. unfold h4. rewrite cells_put.
-      destruct (Nat.eqb_spec i c) as [->|]; [|reflexivity]. apply Ck in Hi. lia. }
-    { exact NDk. }
-    { unfold fuel_of, h4. cbn [nextid put]. rewrite N3.
-      pose proof (length_le_ids kk'). rewrite Kids, seq_length in H. lia. }
-    rewrite E5. cbn [rbind fst snd]. exists h5. split; [reflexivity|].
-    assert (C5 : forall i, ~ In i (ids_f kk') -> i <> c -> cells h5 i = cells h3 i).
-    { intros i Hi1 Hi2. rewrite F5 by exact Hi1. unfold h4. rewrite cells_put.
-      rewrite (proj2 (Nat.eqb_neq i c)) by exact Hi2. reflexivity. }
-    apply (inv_extend h s); fold c; auto; try lia.
-    + rewrite M5a. unfold h4. cbn [nextid put]. exact N3.
-    + rewrite M5b. unfold h4. cbn [freed put]. rewrite Fr3. reflexivity.
-    + rewrite rep_l_cons, rep_t_eq. cbn [hid_or tid]. repeat split; [|exact R5|apply rep_l_nil].
-      rewrite F5 by (intros K; apply Ck in K; lia). unfold h4. rewrite cells_put, Nat.eqb_refl. reflexivity.
-    + cbn [ids_f flat_map]. rewrite ids_t_eq, app_nil_r, Kids.
-      replace (c1 - c) with (S (fsize kx)) by lia. reflexivity.
-    + intros i Hi. rewrite C5; [|intros K; apply Ck in K; lia|lia].
-      rewrite F3; [apply C1; lia|lia|intros []].
-    + intros i Hi. rewrite C5; [|intros K; apply Ck in K; lia|lia].
-      rewrite G3 by lia. apply C1. lia.
+    cbn [hid lastid fold_left] in E3. rewrite E3. cbn [rbind].
+    cbn [nextid h1] in M3. unfold clone_post in M3.
+    pose proof (sclone_l_spec kx (S c) k2) as Kspec.
+    destruct (sclone_l kx (S c) k2) as [[[kk'|] c1] k3] eqn:Ekk.
+    - destruct M3 as (-> & -> & N3 & Fr3 & R3 & F3 & G3). cbn [app] in R3 |- *.
+      destruct Kspec as (Kids & Kc & _).
+      assert (Hk' : hid kk' = Some (S c)) by (eapply sclone_l_some_hid; exact Ekk).
+      rewrite Hk'. rewrite <- Hk'.
+      assert (C3c : cells h3 c = cells h1 c) by (apply F3; [cbn [nextid h1]; lia|intros []]).
+      rewrite (wr_ok _ _ _ _ _ (eq_trans C3c C1c)). cbn [rbind].
+      set (h4 := put h3 c (set_kid (hid kk') (mkN None None None None n v))).
+      assert (NDk : NoDup (ids_f kk')) by (rewrite Kids; apply seq_NoDup).
+      assert (Ck : forall i, In i (ids_f kk') -> S c <= i < c1).
+      { intros i Hi. rewrite Kids in Hi. apply in_seq in Hi. lia. }
+      destruct (set_parents_spec kk' h4 None c (fuel_of h4)) as (h5 & E5 & [M5a M5b] & R5 & F5).
+      { eapply rep_l_frame; [exact R3|]. intros i Hi. unfold h4. rewrite cells_put.
+        destruct (Nat.eqb_spec i c) as [->|]; [|reflexivity]. apply Ck in Hi. lia. }
+      { exact NDk. }
+      { unfold fuel_of, h4. cbn [nextid put]. rewrite N3.
+        pose proof (length_le_ids kk'). rewrite Kids, seq_length in H. lia. }
+      rewrite E5. cbn [rbind sclone_l]. exists h5, (Some c), k3. split; [reflexivity|].
+      assert (C5 : forall i, ~ In i (ids_f kk') -> i <> c -> cells h5 i = cells h3 i).
+      { intros i Hi1 Hi2. rewrite F5 by exact Hi1. unfold h4. rewrite cells_put.
+        rewrite (proj2 (Nat.eqb_neq i c)) by exact Hi2. reflexivity. }
+      unfold clone_post, clone_done. cbn [app hid tid]. split; [reflexivity|]. split; [reflexivity|].
+      split; [rewrite M5a; unfold h4; cbn [nextid put]; exact N3|].
+      split; [rewrite M5b; unfold h4; cbn [freed put]; rewrite Fr3; reflexivity|].
+      split; [|split].
+      + rewrite rep_l_cons, rep_t_eq. cbn [hid_or tid]. repeat split; [|exact R5|apply rep_l_nil].
+        rewrite F5 by (intros K; apply Ck in K; lia). unfold h4. rewrite cells_put, Nat.eqb_refl. reflexivity.
+      + intros i Hi _. fold c in Hi. rewrite C5; [|intros K; apply Ck in K; lia|lia].
+        rewrite F3; [apply C1; lia|cbn [nextid h1]; lia|intros []].
+      + intros i Hi. rewrite C5; [|intros K; apply Ck in K; lia|lia].
+        rewrite G3 by lia. apply C1. lia.
+    - (* the children could not be cloned: the copy of the node is destroyed *)
+      destruct M3 as (-> & -> & N3 & Le3 & P3 & F3 & _ & Z3 & G3).
+      cbn [nextid h1 freed ids_f flat_map app] in Le3, P3, F3, Z3.
+      assert (C3c : cells h3 c = Some (mkN None None None None n v)).
+      { rewrite F3; [exact C1c|lia|intros []]. }
+      unfold node_destroy. rewrite (get_ok _ _ _ C3c). cbn [rbind linked npar nnext nprev].
+      destruct (node_clear_spec h3 c _ [] (fuel_of h3) C3c eq_refl) as (h4 & E4 & N4 & C4 & P4).
+      { apply rep_l_nil. }
+      { constructor; [intros []|constructor]. }
+      { unfold fuel_of. cbn. lia. }
+      rewrite E4. cbn [rbind].
+      assert (C4c : cells h4 c = Some (set_kid None (mkN None None None None n v))) by (rewrite C4, Nat.eqb_refl; reflexivity).
+      rewrite (release_ok _ _ _ C4c). cbn [rbind sclone_l].
+      eexists _, None, k3. split; [reflexivity|]. apply clone_post_fail.
+      unfold clone_failed. cbn [nextid cells freed ids_f flat_map app]. fold c.
+      split; [rewrite N4; exact N3|]. split; [lia|]. split; [|split; [|split; [|split]]].
+      + rewrite P4. cbn [ids_f flat_map app]. rewrite P3.
+        replace (c1 - c) with (S (c1 - S c)) by lia. reflexivity.
+      + intros i Hi _. rewrite upd_other by lia. rewrite C4. rewrite (proj2 (Nat.eqb_neq i c)) by lia. cbn [mem existsb].
+        rewrite F3; [apply C1; lia|lia|intros []].
+      + intros i [].
+      + intros i Hi1 Hi2. destruct (Nat.eq_dec i c) as [->|Ne]; [apply upd_same|].
+        rewrite upd_other by exact Ne. rewrite C4. rewrite (proj2 (Nat.eqb_neq i c)) by exact Ne. cbn [mem existsb].
+        apply Z3; lia.
+      + intros i Hi. rewrite upd_other by lia. rewrite C4. rewrite (proj2 (Nat.eqb_neq i c)) by lia. cbn [mem existsb].
+        rewrite G3 by exact Hi. apply C1. lia. }
+  destruct Post as (h' & res & k' & E & Post). rewrite E. cbn [rbind]. rewrite C in Post.
+  destruct (clone_finish h s h' res k' _ I Post) as [I' O'].
+  - intros l' c' k'' Es. pose proof (sclone_l_spec [T x n v kx] (scount s) k) as Sp.
+    rewrite Es in Sp. destruct Sp as (Ids & Cn & _).
+    unfold clone_post in Post. rewrite Es in Post. destruct Post as (-> & _).
+    cbn [app]. split; [eapply sclone_l_some_hid; exact Es|]. rewrite C. split; [lia|].
+    rewrite Ids. f_equal. lia.
+  - exists h'. rewrite O'. split; [reflexivity|exact I'].
 Qed.
